@@ -90,6 +90,13 @@ func charEdits(w *W, s string, m *strMeta, visit strVisitor) {
 				visit(w, s[:p]+a+s[p+1:], m) // replace
 			}
 		}
+		// byte-level relatives of the character itself: high bit set, case flipped, neighbours, 0x80, 0xff
+		c := s[p]
+		for _, b := range []byte{c | 0x80, c ^ 0x20, c + 1, c - 1, 0x80, 0xff, c &^ 0x40} {
+			if b != c {
+				visit(w, s[:p]+string([]byte{b})+s[p+1:], m)
+			}
+		}
 	}
 	for _, a := range editAlphabet {
 		visit(w, s+a, m)
@@ -494,4 +501,48 @@ func randomTokens(rng *rand.Rand, pool []string, maxTok int, prefix string) stri
 		t = append(t, pool[rng.IntN(len(pool))])
 	}
 	return strings.Join(t, "/")
+}
+
+// lengthSweep returns strings that probe count and length thresholds: exactly n
+// separators / tokens / characters for every n up to 130 and around powers of two.
+func lengthSweep(v2 bool, big bool) []string {
+	prefix, valid := "CVSS:3.1/", "AV:N/AC:L/PR:N/UI:N/S:U/C:H/I:H/A:H"
+	opt := []string{"E:X", "RL:X", "RC:X", "CR:X", "IR:X", "AR:X", "MAV:X", "MAC:X", "MPR:X", "MUI:X", "MS:X", "MC:X", "MI:X", "MA:X"}
+	if v2 {
+		prefix, valid = "", "AV:N/AC:L/Au:N/C:P/I:P/A:P"
+		opt = []string{"E:ND", "RL:ND", "RC:ND", "CDP:ND", "TD:ND", "CR:ND", "IR:ND", "AR:ND"}
+	}
+	var ns []int
+	for n := 0; n <= 130; n++ {
+		ns = append(ns, n)
+	}
+	for _, c := range []int{255, 256, 257, 511, 512, 513, 1023, 1024, 1025} {
+		ns = append(ns, c)
+	}
+	if big {
+		ns = append(ns, 4095, 4096, 4097, 65535, 65536, 65537)
+	}
+	var out []string
+	for _, n := range ns {
+		rep := func(t string) string { return strings.Repeat(t, n) }
+		out = append(out,
+			prefix+valid+rep("/"),              // n trailing empty tokens
+			prefix+valid+rep("/ZZ:N"),          // n unknown tokens
+			prefix+valid+rep("/E:X"),           // n repeated optional tokens
+			prefix+rep("AV:N/")+valid,          // n leading duplicates
+			rep("/"),                           // only separators
+			prefix+valid+"/"+rep(":"),          // n colons
+			prefix+valid+"/E:"+rep("X"),        // value of length n
+			prefix+valid+"/"+rep("E")+":X",     // name of length n
+			prefix+rep("/")+valid,              // n empty tokens before the metrics
+			prefix+valid+"/"+strings.Join(opt[:min(n, len(opt))], "/")+rep("/"), // optional metrics then n empty tokens
+		)
+		// a valid vector padded to exactly n separators in total with unknown tokens
+		base := prefix + valid
+		have := strings.Count(base, "/")
+		if n >= have {
+			out = append(out, base+strings.Repeat("/ZZ:N", n-have), base+strings.Repeat("/", n-have))
+		}
+	}
+	return out
 }
